@@ -99,6 +99,7 @@ def as_homogeneous_matrix(
     tensor_, type_ = as_homogeneous_tensor(tensor, dtype=dtype, device=device)
     if type_ == HomogeneousTensorType.TRANSLATION:
         A = torch.eye(tensor_.shape[-2], dtype=tensor_.dtype, device=tensor_.device)
+        A = A.expand(tensor_.shape[:-2] + A.shape)
         tensor_ = torch.cat([A, tensor_], dim=-1)
     elif type_ == HomogeneousTensorType.AFFINE:
         t = torch.tensor(0, dtype=tensor_.dtype, device=tensor_.device).expand(
